@@ -1,7 +1,8 @@
 (** C06 — values stay attached to their time steps (time-order equivariance).
     Property theorems only; window functions REGENERATED, scatter loop Model/Driver.v (K3). *)
-From Coq Require Import ZArith List Bool Permutation.
-From IV Require Import NP GenWindows Grid Driver Driver_proofs Driver_corollaries C06_proofs.
+From Coq Require Import QArith ZArith List Bool Permutation.
+From Coq Require String.
+From IV Require Import NP GenWindows GenScalars Dist RatLS Grid Driver Driver_proofs Driver_corollaries C06_proofs C06_instances.
 Import ListNotations.
 Open Scope Z_scope.
 
@@ -51,3 +52,42 @@ Theorem C06_order_equivariance : forall (T V : Type) (g : list T -> list T -> li
       nth (Z.to_nat k) out None = nth (Z.to_nat k') out' None.
 Proof. exact order_equivariance. Qed.
 Print Assumptions C06_order_equivariance.
+
+(** ... instantiated at the REGENERATED per-window methods (GenScalars): the conclusion of
+    C06_order_equivariance holds for LinearScaling (both delta types), parametric QuantileMapping
+    (all three detrending modes) and ECDFM, for every distribution whose fit does not depend on the
+    order of the sample; the rational location-scale family of the correspondence runs is one. *)
+Import Coq.Strings.String.
+Theorem C06_linear_scaling_additive : forall L S, 0 < S -> S <= L -> S mod 2 = 1 ->
+  order_equivariant L S (fun o h f => unwrap (GenScalars.ls_apply_on_window "additive"%string o h f)).
+Proof. exact ls_add_order_equivariant. Qed.
+Print Assumptions C06_linear_scaling_additive.
+
+Theorem C06_linear_scaling_multiplicative : forall L S, 0 < S -> S <= L -> S mod 2 = 1 ->
+  order_equivariant L S (fun o h f => unwrap (GenScalars.ls_apply_on_window "multiplicative"%string o h f)).
+Proof. exact ls_mul_order_equivariant. Qed.
+Print Assumptions C06_linear_scaling_multiplicative.
+
+Theorem C06_quantile_mapping_parametric : forall L S, 0 < S -> S <= L -> S mod 2 = 1 ->
+  forall (P : Type) (D : Dist.dist P), (forall l l', Permutation l l' -> Dist.fit D l = Dist.fit D l') ->
+  forall thr,
+  order_equivariant L S (fun o h f => unwrap (GenScalars.qm_apply_on_window "no_detrending"%string "parametric"%string D thr o h f)) /\
+  order_equivariant L S (fun o h f => unwrap (GenScalars.qm_apply_on_window "additive"%string "parametric"%string D thr o h f)) /\
+  order_equivariant L S (fun o h f => unwrap (GenScalars.qm_apply_on_window "multiplicative"%string "parametric"%string D thr o h f)).
+Proof.
+  intros L S H1 H2 H3 P D Hf thr. split; [|split].
+  - exact (qm_param_order_equivariant L S H1 H2 H3 D Hf thr).
+  - exact (qm_param_detrended_order_equivariant L S H1 H2 H3 D Hf thr).
+  - exact (qm_param_mult_detrended_order_equivariant L S H1 H2 H3 D Hf thr).
+Qed.
+Print Assumptions C06_quantile_mapping_parametric.
+
+Theorem C06_ecdfm : forall L S, 0 < S -> S <= L -> S mod 2 = 1 ->
+  forall (P : Type) (D : Dist.dist P), (forall l l', Permutation l l' -> Dist.fit D l = Dist.fit D l') ->
+  forall thr, order_equivariant L S (fun o h f => GenScalars.ecdfm_apply_on_window D thr o h f).
+Proof. intros L S H1 H2 H3 P D Hf thr. exact (ecdfm_order_equivariant L S H1 H2 H3 D Hf thr). Qed.
+Print Assumptions C06_ecdfm.
+
+Theorem C06_fit_hypothesis_satisfiable : forall l l', Permutation l l' -> Dist.fit RatLS.ratls l = Dist.fit RatLS.ratls l'.
+Proof. exact ratls_fit_perm. Qed.
+Print Assumptions C06_fit_hypothesis_satisfiable.
